@@ -497,7 +497,7 @@ let cmd_enum depth hs =
 
 (* ---------- pipelines (C06) ---------- *)
 
-let parse_stage (t : string) : stage =
+let parse_stage1 (t : string) : stage =
   let parts = Array.of_list (String.split_on_char ':' t) in
   let num i = if i < Array.length parts then nat_of_int (int_of_string parts.(i)) else O in
   let lst i = if i < Array.length parts then List.map nat_of_int (parse_list parts.(i)) else [] in
@@ -512,6 +512,21 @@ let parse_stage (t : string) : stage =
   | "flatmap" -> StFlatMap (num 1)
   | s -> failwith ("unknown stage " ^ s)
 
+(* cat:m1/m2/../mk = concat! of k members, exactly one of which ("_") is the upstream pipeline and the
+   others are from_iter over a list ("-" = empty): as a list function, prepend what is before and append
+   what is after *)
+let parse_stage (t : string) : stage list =
+  if String.length t > 4 && String.sub t 0 4 = "cat:" then begin
+    let ms = String.split_on_char '/' (String.sub t 4 (String.length t - 4)) in
+    let rec split pre = function
+      | [] -> failwith "cat: no upstream member"
+      | "_" :: post -> (List.rev pre, post)
+      | m :: rest -> split (m :: pre) rest in
+    let (pre, post) = split [] ms in
+    let cat l = List.concat_map (fun m -> List.map nat_of_int (parse_list m)) l in
+    [StPrepend (cat pre); StAppend (cat post)]
+  end else [parse_stage1 t]
+
 let cmd_pipe () =
   try
     while true do
@@ -525,7 +540,7 @@ let cmd_pipe () =
         let inf = match get h "inf" "-" with "-" -> None | b -> Some (nat_of_int (int_of_string b)) in
         let st = get h "stages" "-" in
         let stages = if st = "-" || st = "" then []
-          else List.map parse_stage (List.filter (fun s -> s <> "") (String.split_on_char ';' st)) in
+          else List.concat_map parse_stage (List.filter (fun s -> s <> "") (String.split_on_char ';' st)) in
         let ((outs, pos), fin) = run_pipe_spec stages xs inf (nat_of_int 400) (nat_of_int 3000) in
         let u = String.concat " " (List.map (fun v -> Printf.sprintf "user:%d" (int_of_nat v)) outs) in
         let u = if u = "" then "" else u ^ " " in
@@ -535,8 +550,17 @@ let cmd_pipe () =
     done
   with End_of_file -> ()
 
+let gen_list () : string =
+  let l = rand 3 in
+  if l = 0 then "-" else String.concat "," (List.init l (fun _ -> string_of_int (rand 10)))
+
 let gen_stage () : string =
-  match rand 10 with
+  match rand 12 with
+  | 10 | 11 ->
+      (* concat! of 2-4 members, one of them the pipeline so far; empty members at every position *)
+      let k = 2 + rand 3 in
+      let up = rand k in
+      "cat:" ^ String.concat "/" (List.init k (fun i -> if i = up then "_" else if rand 3 = 0 then "-" else gen_list ()))
   | 0 | 1 -> Printf.sprintf "map:%d:%d" (1 + rand 3) (rand 3)
   | 2 | 3 -> let m = 1 + rand 3 in Printf.sprintf "filter:%d:%d" m (rand m)
   | 4 -> Printf.sprintf "scan:%d:%d" (rand 3) (rand 4)
